@@ -128,6 +128,16 @@ Definition c_8192 : float := 8192.                         (* 1 << 13 *)
 Definition c_66_774757 : float := 0x1.0b1959e625636p+6.    (* 66.774757 *)
 Definition c_5_7 : float := 0x1.6cccccccccccdp+2.          (* 5.7 *)
 Definition c_5_6 : float := 0x1.6666666666666p+2.          (* 5.6 *)
+Definition c_1em100 : float := 0x1.bff2ee48e053p-333.      (* 1e-100 *)
+Definition c_500 : float := 500.
+Definition c_0_673 : float := 0x1.589374bc6a7f0p-1.        (* 0.673 *)
+Definition c_0_697 : float := 0x1.64dd2f1a9fbe7p-1.        (* 0.697 *)
+Definition c_0_709 : float := 0x1.6b020c49ba5e3p-1.        (* 0.709 *)
+Definition c_0_7213 : float := 0x1.714e3bcd35a86p-1.       (* 0.7213 *)
+Definition c_1_079 : float := 0x1.14395810624ddp+0.        (* 1.079 *)
+Definition c_0_64 : float := 0x1.47ae147ae147bp-1.         (* 0.64 *)
+Definition c_0_718 : float := 0x1.6f9db22d0e560p-1.        (* 0.718 *)
+Definition c_0_672 : float := 0x1.5810624dd2f1bp-1.        (* 0.672 *)
 
 (* a value the model computed bit-exactly, or a branch through libm (log / pow / exp) that is not modelled *)
 Inductive approx : Type := Exact (branch : Z) (v : float) | Libm (branch : Z).
@@ -149,9 +159,46 @@ Definition cont_classic_ub (n : Z) (theta k : float) : float :=
 
 Definition equiv_index (n sd : Z) : Z := (3 * n + (sd - 1))%Z.
 
+(* ---- exact binomial tails: special_n_star / special_n_prime_b / special_n_prime_f.
+   [pw] = std::pow(p, num_samples) is the only libm value; it is read from the environment. The loops use + * / only.
+   None = the function throws, or the fuel (far above any reachable trip count) ran out. ---- *)
+Definition tail_fuel : nat := Z.to_nat 60000.
+Fixpoint nstar_loop (fuel : nat) (n : Z) (q delta cur tot : float) (m : Z) : option Z :=
+  match fuel with
+  | O => None
+  | S f =>
+      if PrimFloat.leb tot delta then
+        let cur' := (cur * q * fofZ m) / fofZ ((m + 1) - n) in
+        nstar_loop f n q delta cur' (tot + cur') (m + 1)%Z
+      else Some (m - 1)%Z
+  end.
+Definition special_n_star (n : Z) (p delta pw : float) : option Z :=
+  let q := 1 - p in
+  if PrimFloat.leb c_500 (fofZ n / p) then None
+  else if PrimFloat.leb pw c_1em100 then None
+  else nstar_loop tail_fuel n q delta pw pw n.
+Fixpoint nprime_loop (fuel : nat) (n : Z) (q omd cur tot : float) (m : Z) : option Z :=
+  match fuel with
+  | O => None
+  | S f =>
+      if PrimFloat.ltb tot omd then
+        let cur' := (cur * q * fofZ m) / fofZ ((m + 1) - n) in
+        nprime_loop f n q omd cur' (tot + cur') (m + 1)%Z
+      else Some m
+  end.
+Definition special_n_prime_b (n : Z) (p delta pw : float) : option Z :=
+  let q := 1 - p in
+  let omd := 1 - delta in
+  if PrimFloat.leb pw c_1em100 then None
+  else nprime_loop tail_fuel n q omd pw pw n.
+(* [pw1] = std::pow(p, num_samples + 1) *)
+Definition special_n_prime_f (n : Z) (p delta pw1 : float) : option Z :=
+  if PrimFloat.leb c_500 (fofZ n / p) then None else special_n_prime_b (n + 1) p delta pw1.
+Definition delta_of (sd : Z) : float := fnth delta_of_num_std_devs sd.
+
 (* compute_approx_binomial_lower_bound; branch numbers: 1 theta==1, 2 n==0, 3 n==1 (log), 4 n>120 (gaussian),
-   5 theta > 1-1e-5, 6 theta < n/360 (gaussian with the equivalence table), 7 exact tail (pow) *)
-Definition approx_lb (n : Z) (theta : float) (sd : Z) : approx :=
+   5 theta > 1-1e-5, 6 theta < n/360 (gaussian with the equivalence table), 7 exact tail (bit-exact given pow(theta, n)) *)
+Definition approx_lb (n : Z) (theta : float) (sd : Z) (pw : float) : approx :=
   if PrimFloat.eqb theta 1 then Exact 1 (fofZ n)
   else if (n =? 0)%Z then Exact 2 0
   else if (n =? 1)%Z then Libm 3
@@ -159,17 +206,23 @@ Definition approx_lb (n : Z) (theta : float) (sd : Z) : approx :=
   else if PrimFloat.ltb (1 - c_1em5) theta then Exact 5 (fofZ n)
   else if PrimFloat.ltb theta (fofZ n / c_360)
        then Exact 6 (cont_classic_lb n theta (fnth lb_equiv_table (equiv_index n sd)) - c_half)
-  else Libm 7.
+  else match special_n_star n theta (delta_of sd) pw with
+       | Some m => Exact 7 (fofZ m)
+       | None => Libm 7
+       end.
 
 (* compute_approx_binomial_upper_bound; branch 2 (n==0) goes through log; n==1 is handled by the general branches *)
-Definition approx_ub (n : Z) (theta : float) (sd : Z) : approx :=
+Definition approx_ub (n : Z) (theta : float) (sd : Z) (pw1 : float) : approx :=
   if PrimFloat.eqb theta 1 then Exact 1 (fofZ n)
   else if (n =? 0)%Z then Libm 2
   else if (120 <? n)%Z then Exact 4 (cont_classic_ub n theta (fofZ sd) + c_half)
   else if PrimFloat.ltb (1 - c_1em5) theta then Exact 5 (fofZ (n + 1))
   else if PrimFloat.ltb theta (fofZ n / c_360)
        then Exact 6 (cont_classic_ub n theta (fnth ub_equiv_table (equiv_index n sd)) + c_half)
-  else Libm 7.
+  else match special_n_prime_f n theta (delta_of sd) pw1 with
+       | Some m => Exact 7 (fofZ m)
+       | None => Libm 7
+       end.
 
 (* check_theta: throws when theta < 0 || theta > 1 *)
 Definition theta_ok (theta : float) : bool := negb (PrimFloat.ltb theta 0) && negb (PrimFloat.ltb 1 theta).
@@ -238,6 +291,50 @@ Definition coupon_cubic (count : Z) : option float :=
                                    (fnth coupon_xArr (o + 1)) (fnth coupon_yArr (o + 1))
                                    (fnth coupon_xArr (o + 2)) (fnth coupon_yArr (o + 2))
                                    (fnth coupon_xArr (o + 3)) (fnth coupon_yArr (o + 3)) x)
+       end.
+
+(* ---- HllArray::getHllRawEstimate / getCompositeEstimate (CubicInterpolation::usingXArrAndYStride on the translated
+        CompositeInterpolationXTable); [lin] = getHllBitMapEstimate() goes through log and is read from the environment.
+        None = the code throws ---- *)
+Definition hll_correction (lgk : Z) : float :=
+  if (lgk =? 4)%Z then c_0_673 else if (lgk =? 5)%Z then c_0_697 else if (lgk =? 6)%Z then c_0_709
+  else c_0_7213 / (1 + c_1_079 / fofZ (2 ^ lgk)).
+Definition hll_raw_estimate (lgk : Z) (kxq0 kxq1 : float) : float :=
+  (hll_correction lgk * fofZ (2 ^ lgk) * fofZ (2 ^ lgk)) / (kxq0 + kxq1).
+Definition composite_xarr (lgk : Z) : list float := nth (Z.to_nat (lgk - hll_MIN_LOG_K)) composite_xArrs [].
+Definition composite_ystride (lgk : Z) : float := fofZ (znth composite_yStrides (lgk - hll_MIN_LOG_K)).
+Definition composite_interp (xs : list float) (len : Z) (ystride x : float) : option float :=
+  let lenm1 := (len - 1)%Z in
+  if (len <? 4)%Z || PrimFloat.ltb x (fnth xs 0) || PrimFloat.ltb (fnth xs lenm1) x then None
+  else if PrimFloat.eqb x (fnth xs lenm1) then Some (ystride * fofZ lenm1)
+  else match find_straddle 64 xs 0 lenm1 x with
+       | None => None
+       | Some off =>
+           if (off <? 0)%Z || (len - 2 <? off)%Z then None else
+           let o := if (off =? 0)%Z then off else if (off =? len - 2)%Z then (off - 2)%Z else (off - 1)%Z in
+           Some (cubic_interpolate (fnth xs o) (ystride * fofZ o)
+                                   (fnth xs (o + 1)) (ystride * fofZ (o + 1))
+                                   (fnth xs (o + 2)) (ystride * fofZ (o + 2))
+                                   (fnth xs (o + 3)) (ystride * fofZ (o + 3)) x)
+       end.
+Definition hll_composite (lgk : Z) (kxq0 kxq1 lin : float) : option float :=
+  let raw := hll_raw_estimate lgk kxq0 kxq1 in
+  let xs := composite_xarr lgk in
+  let len := composite_numXArrValues in
+  let lenm1 := (len - 1)%Z in
+  let ystride := composite_ystride lgk in
+  if PrimFloat.ltb raw (fnth xs 0) then Some 0
+  else if PrimFloat.ltb (fnth xs lenm1) raw then
+    let finalY := ystride * fofZ lenm1 in
+    let factor := finalY / fnth xs lenm1 in
+    Some (raw * factor)
+  else match composite_interp xs len ystride raw with
+       | None => None
+       | Some adj =>
+           if PrimFloat.ltb (fofZ (3 * 2 ^ lgk)) adj then Some adj else
+           let avg := (adj + lin) / c_two in
+           let cross := if (lgk =? 4)%Z then c_0_718 else if (lgk =? 5)%Z then c_0_672 else c_0_64 in
+           Some (if PrimFloat.ltb (cross * fofZ (2 ^ lgk)) avg then adj else lin)
        end.
 
 (* ---- cpc_confidence.hpp : eps = kappa * (x / sqrt(k)), x from the table (lg_k <= 14) or the asymptotic constant ---- *)
@@ -315,18 +412,19 @@ Definition branch_of (a : approx) : Z := match a with Exact b _ => b | Libm b =>
 (* bounds of one (m, theta) for sd = 1,2,3 given the implementation's inner values [ilb1; iub1; ilb2; iub2; ilb3; iub3] *)
 Definition bb_triple (estmode : bool) (m : Z) (theta : float) (e : list Z) : list Z * Z * list Z :=
   match e with
-  | [l1; u1; l2; u2; l3; u3] =>
+  | [l1; u1; l2; u2; l3; u3; pwb; pw1b] =>
+      let pw := bf pwb in let pw1 := bf pw1b in
       let one sd l u := [fb (sk_lb fops estmode m theta (bf l)); fb (sk_ub fops estmode m theta (bf u))] in
       let mask :=
         if estmode then
-          mism 0 (approx_lb m theta 1) l1 + mism 1 (approx_ub m theta 1) u1 +
-          mism 2 (approx_lb m theta 2) l2 + mism 3 (approx_ub m theta 2) u2 +
-          mism 4 (approx_lb m theta 3) l3 + mism 5 (approx_ub m theta 3) u3
+          mism 0 (approx_lb m theta 1 pw) l1 + mism 1 (approx_ub m theta 1 pw1) u1 +
+          mism 2 (approx_lb m theta 2 pw) l2 + mism 3 (approx_ub m theta 2 pw1) u2 +
+          mism 4 (approx_lb m theta 3 pw) l3 + mism 5 (approx_ub m theta 3 pw1) u3
         else 0 in
       (one 1 l1 u1 ++ one 2 l2 u2 ++ one 3 l3 u3, mask,
-       [branch_of (approx_lb m theta 1); branch_of (approx_ub m theta 1);
-        branch_of (approx_lb m theta 2); branch_of (approx_ub m theta 2);
-        branch_of (approx_lb m theta 3); branch_of (approx_ub m theta 3)])
+       [branch_of (approx_lb m theta 1 pw); branch_of (approx_ub m theta 1 pw1);
+        branch_of (approx_lb m theta 2 pw); branch_of (approx_ub m theta 2 pw1);
+        branch_of (approx_lb m theta 3 pw); branch_of (approx_ub m theta 3 pw1)])
   | _ => ([], -3, [])
   end.
 
@@ -340,13 +438,15 @@ Definition sketch_bounds (n theta64 : Z) (empty : bool) (m : Z) (e : list Z) : o
 
 Definition hll_bounds (e : list Z) : outline :=
   match e with
-  | [mode; lgk; ooo; count; cur_min; num_at; est; cubic] =>
+  | [mode; lgk; ooo; count; cur_min; num_at; est; cubic; kxq0; kxq1; lin; comp] =>
       if (mode =? 2) then
         let o := negb (ooo =? 0) in
         let nnz := hll_num_nonzeros lgk cur_min num_at in
         let one sd := [fb (hll_lb fops (bf est) (hll_rel_err false o lgk sd) nnz);
                        fb (hll_ub fops (bf est) (hll_rel_err true o lgk sd))] in
-        (one 1 ++ one 2 ++ one 3 ++ [est; 0], [nnz])
+        let cm := match hll_composite lgk (bf kxq0) (bf kxq1) (bf lin) with Some v => v | None => PrimFloat.nan end in
+        let mask := if fb cm =? comp then 0 else 2 in
+        (one 1 ++ one 2 ++ one 3 ++ [est; mask], [nnz; fb (hll_raw_estimate lgk (bf kxq0) (bf kxq1))])
       else
         let cm := match coupon_cubic count with Some v => v | None => PrimFloat.nan end in
         let mask := if fb cm =? cubic then 0 else 1 in
